@@ -397,7 +397,15 @@ class Interp:
             elif isinstance(v, int) and not isinstance(v, bool):
                 text += format(v, spec) if spec else str(v)
             elif exact:
-                return UNK
+                # the shape of the text is known, some holes are not: ("FMT", skeleton)
+                rest = ""
+                started = False
+                for q in pieces:
+                    if q is p:
+                        started = True
+                    if started:
+                        rest += q[1] if q[0] == "lit" else "{%s}" % ((":" + q[2]) if q[2] else "")
+                return ("FMT", text + rest)
             else:
                 text += "{%s}" % ((":" + spec) if spec else "")
         return text
@@ -1004,7 +1012,7 @@ class Interp:
             v, s = o.value, o.st
             some = isinstance(v, tuple) and v and v[0] in ("Some", "Ok")
             none = v == NONE or (isinstance(v, tuple) and v and v[0] == "Err")
-            if m in ("as_ref", "as_mut", "clone", "cloned", "copied", "as_deref", "as_deref_mut", "borrow", "to_owned", "iter", "into_iter", "by_ref") and not e["args"]:
+            if m in ("as_ref", "as_mut", "clone", "cloned", "copied", "as_deref", "as_deref_mut", "borrow", "to_owned", "iter", "into_iter", "by_ref", "as_str", "into", "to_string", "as_bytes") and not e["args"]:
                 res.append(Out("val", v, s))
             elif m in ("is_some", "is_ok") and not e["args"]:
                 res.append(Out("val", True if some else False if none else v if is_unknown(v) else UNK, s))
